@@ -265,6 +265,7 @@ def datetime_add_shape(ctx, rule: str = "ADD") -> None:
             wants = []
             for base in ([utc] if utc else []) + ([f"add_duration({naive_copy}, {fwd})"] if off is False else []):
                 wants.append(f"self.tz.convert(datetime.datetime({fields(base)}, tzinfo=UTC))")
+                wants.append(f"self.tz.convert({base}.replace(tzinfo=UTC))")      # same tagging of a native, naive value
             ctx.ob(f"{rule}.fixed-exit", "DateTime.add/fixed/source", sv in wants,
                    f"fixed-length branch rebuilds from `{sv[:100]}...`; must be self.tz.convert(<add_duration(wall clock "
                    f"- utcoffset) tagged tzinfo=UTC>)", m.loc(ex[2]))
